@@ -188,6 +188,10 @@ def digest(obj):
     return hashlib.sha1(json.dumps(obj, sort_keys=True, default=str).encode()).hexdigest()[:16]
 
 
+FAILURE_CAP = 400
+BUDGET_END = [None]          # wall-clock end of the whole check (set by tools/check.py from VERIF_BUDGET_S)
+
+
 def evaluate(component, cases, outcome, keep_samples=3, batch=2000, deadline=None):
     """run the implementation on each case (component.run_impl), send the
     resulting queries to the model, compare"""
@@ -232,9 +236,17 @@ def evaluate(component, cases, outcome, keep_samples=3, batch=2000, deadline=Non
             flush()
 
     extra = extra2 = 0
+    budget_end = BUDGET_END[0]
     for n, case in enumerate(cases):
         if deadline is not None and time.time() > deadline:
             outcome.count("search-stopped-at-deadline")
+            break
+        if len(outcome.oracle_fail) + len(outcome.corr_fail) + len(outcome.harness_errors) >= FAILURE_CAP:
+            # failing inputs are at hand: a broken tree can make every further case run into a watchdog
+            outcome.count("suite-stopped-after-%d-failures" % FAILURE_CAP)
+            break
+        if budget_end is not None and time.time() > budget_end:
+            outcome.count("suite-stopped-at-time-budget")
             break
         run_one(case)
         # the same case once more under another ambient configuration of the process (every 4th case, at most 2500 per suite):
